@@ -92,12 +92,13 @@ func families(tier string) []family {
 		}
 	}
 	return []family{
-		{name: "full3", title: "n", alpha: full, depth: 3, states: []string{"empty"}, nsh: 256},
 		{name: "full2", title: "n", alpha: full, depth: 2, states: []string{"files", "uplink"}, nsh: 8},
 		{name: "core3", title: "n", alpha: core, depth: 3, states: []string{"files", "uplink"}, nsh: 48},
 		{name: "mini4", title: "n", alpha: mini, depth: 4, states: three, nsh: 64},
 		{name: "rootlinks5", title: ".", alpha: link, depth: 5, states: []string{"empty"}, nsh: 64},
 		{name: "chain5", title: "n", alpha: chain, depth: 5, states: []string{"empty"}, nsh: 64},
+		// the largest family last: when the budget runs out it is the one cut short
+		{name: "full3", title: "n", alpha: full, depth: 3, states: []string{"empty"}, nsh: 256},
 	}
 }
 
